@@ -85,6 +85,22 @@ macro_rules! only { ($($name:ident : $tr:ident => $m:expr),*) => {$(
     })*};
 }
 only!(OnlyDisplay: Display => b'D', OnlyDebug: Debug => b'?', OnlyHex: LowerHex => b'x', OnlyPointer: Pointer => b'p');
+/// implements exactly Display and Debug
+#[derive(Clone, Copy, PartialEq, Eq)]
+pub struct DisplayDebug(pub u8);
+impl fmt::Display for DisplayDebug {
+    fn fmt(&self, f: &mut fmt::Formatter<'_>) -> fmt::Result { let b = [b'D', b'a' + (self.0 & 15)]; f.write_str(unsafe { core::str::from_utf8_unchecked(&b) }) }
+}
+impl fmt::Debug for DisplayDebug {
+    fn fmt(&self, f: &mut fmt::Formatter<'_>) -> fmt::Result { let b = [b'?', b'a' + (self.0 & 15)]; f.write_str(unsafe { core::str::from_utf8_unchecked(&b) }) }
+}
+/// a trait object type that mentions a type parameter only through an associated-type binding
+pub trait Source { type Out; fn get(&self) -> Self::Out; }
+impl<T: fmt::Display> fmt::Display for dyn Source<Out = T> {
+    fn fmt(&self, f: &mut fmt::Formatter<'_>) -> fmt::Result { fmt::Display::fmt(&self.get(), f) }
+}
+pub struct Src(pub u8);
+impl Source for Src { type Out = OnlyDisplay; fn get(&self) -> OnlyDisplay { OnlyDisplay(self.0) } }
 /// implements no formatting trait at all
 #[derive(Clone, Copy, PartialEq, Eq)]
 pub struct Nothing;
@@ -168,6 +184,16 @@ def shapes(tier):
     out.append(gshape("debug_field_format", DB + 'pub struct G<T, U> { #[debug("{a}")] pub a: T, pub b: U }', "Debug", "G { a: OnlyDisplay(i), b: OnlyDebug(j) }",
                       "[b'G', b' ', b'{', b' ', b'a', b':', b' ', b'D', b'a' + i, b',', b' ', b'b', b':', b' ', b'?', b'a' + j, b' ', b'}']",
                       "field-level `#[debug(\"{a}\")]`: T: Display (not Debug); the plain field U: Debug", exercises=["impl/src/fmt/debug.rs::Expansion::generate_bounds"]))
+    out.append(gshape("assoc_type_binding", D + '#[display("{a}")]\npub struct G<\'x, T> { pub a: &\'x dyn Source<Out = T> }', "Display",
+                      "{ static SRC: Src = Src(3); G { a: &SRC } }", "[b'D', b'a' + 3]", "a field type that mentions T only as `dyn Source<Out = T>` still needs its bound"))
+    out.append(gshape("debug_same_field_two_traits", DB + '#[debug("{a:?}/{a}")]\npub struct G<T> { pub a: T }', "Debug", "G { a: DisplayDebug(i) }",
+                      "[b'?', b'a' + i, b'/', b'D', b'a' + i]", "two placeholders on the same field under different traits need both bounds",
+                      exercises=["impl/src/fmt/debug.rs::Expansion::generate_bounds"]))
+    out.append(gshape("debug_field_format_two_traits", DB + 'pub struct G<T> { #[debug("{a}({a:?})")] pub a: T }', "Debug", "G { a: DisplayDebug(i) }",
+                      "[b'G', b' ', b'{', b' ', b'a', b':', b' ', b'D', b'a' + i, b'(', b'?', b'a' + i, b')', b' ', b'}']",
+                      "field-level format naming the field under two traits", exercises=["impl/src/fmt/debug.rs::Expansion::generate_bounds"]))
+    out.append(gshape("display_same_type_two_fields_two_traits", D + '#[display("{a:x}..{b}")]\npub struct G<T, U> { pub a: T, pub b: U }', "Display",
+                      "G { a: OnlyHex(i), b: OnlyDisplay(j) }", "[b'x', b'a' + i, b'.', b'.', b'D', b'a' + j]", "adjacent placeholders, different traits"))
     out = [x for x in out if x.name != "c04_enum_shared_with_field"]
     if tier == "quick":
         out = [s for s in out if s.quick]
@@ -175,7 +201,7 @@ def shapes(tier):
 
 
 DESCRIPTION = {
-    "grid": "17 generic structs / enums (named and tuple fields, references and arrays, PhantomData, expression arguments, aliases, explicit bound(..), "
+    "grid": "20 generic structs / enums (named and tuple fields, references and arrays, PhantomData, expression arguments, aliases, explicit bound(..), "
             "attribute-less delegation under Display and LowerHex, per-variant attributes, wrapping shared formats, Debug with skipped fields and field formats), "
             "each instantiated with field types that implement exactly one formatting trait or none",
     "symbolic": "the field ids (and which variant); the instantiation is concrete",
